@@ -119,19 +119,25 @@ def check(ctx):
         ctx.sample({"tracker": tname, "pending_list": field, "start": "%s:%d" % (start.file, start.line)})
 
     # ---- C12.b postponed queue is FIFO ----
-    qname = A.TABLE["queue_type"]
+    NM = A.names(prog)
+    qname = NM["queue_type"]
     qadt = [p for p in prog.adts if p.endswith("::" + qname)]
     if not qadt:
         ctx.fail("C12.b", "anchor-lost:%s" % qname, "", "queue type not found")
         return
     qty = qadt[0]
-    qfield = "commands"
-    spec = {
+    qfield = NM["queue_field"]
+    # expectations of the operation table (fallback when the sequence algebra is inconclusive), by signature role
+    spec_by_role = {
         "push": ({"append-ordered"}, ["append-ordered"]),
-        "pop_front": ({"order-preserving-remove"}, ["order-preserving-remove"]),
-        "append": ({"append-ordered", "lookup"}, ["append-ordered"]),
-        "remove": ({"lookup"}, []),
+        "pop": ({"order-preserving-remove"}, ["order-preserving-remove"]),
+        "attach": ({"append-ordered", "lookup"}, ["append-ordered"]),
+        "detach": ({"lookup"}, []),
     }
+    import seqalg
+    spec = {}
+    for m_ in A.methods_of(prog, qname):
+        spec[m_.raw.get("name")] = spec_by_role.get(seqalg.role_of(m_), ({"append-ordered", "order-preserving-remove", "lookup"}, []))
     methods = {m.raw.get("name"): m for m in A.methods_of(prog, qname)}
     ctx.floor("C12.b", len(methods), 4, "queue methods")
     import seqalg
@@ -156,19 +162,20 @@ def check(ctx):
         container_ops(ctx, "C12.b", m, qty, qfield, allowed, must, "%s::%s" % (qname, name), modelled=conclusive)
         if not conclusive:
             ctx.notes.append("sequence algebra inconclusive for %s::%s (%s): falling back to the operation table" % (qname, name, [k for k, _, _ in contract][:3]))
-        if conclusive or name not in ("pop_front", "append"):
+        role = res["role"]
+        if conclusive or role not in ("pop", "attach"):
             continue
         names = [mir.strip_generics(n) for _, _, n, _ in lib.field_method_calls(m, qty, qfield)]
-        if name == "pop_front":
-            ctx.check(any(n.endswith("VecDeque::pop_front") for n in names), "C12.b", "%s::pop_front:pops-front" % qname,
+        if role == "pop":
+            ctx.check(any(n.endswith("VecDeque::pop_front") for n in names), "C12.b", "%s::%s:pops-front" % (qname, name),
                       "%s:%d" % (m.file, m.line), "removes from the front",
                       "pop_front does not remove from the front of the queue: %s" % names)
-        if name == "append":
+        if role == "attach":
             ok = False
             for b, t, n, chain in lib.field_method_calls(m, qty, qfield):
                 if mir.strip_generics(n).endswith("VecDeque::append") and len(t["args"]) > 1:
                     ok = lib.originates_from_arg(m, t["args"][1], 2)
-            ctx.check(ok, "C12.b", "%s::append:appends-argument-behind-existing" % qname, "%s:%d" % (m.file, m.line),
+            ctx.check(ok, "C12.b", "%s::%s:appends-argument-behind-existing" % (qname, name), "%s:%d" % (m.file, m.line),
                       "existing commands stay in front of the appended ones",
                       "append does not append its argument behind the existing queue")
     # ---- C12.c replay visits front to back, and postponing pushes at the back ----
@@ -176,7 +183,7 @@ def check(ctx):
     if R is None:
         return
     ctx.touch(R)
-    removes = lib.call_blocks(R, lambda n: lib.tail(n, 2) == qname + "::remove")
+    removes = lib.call_blocks(R, lambda n: lib.tail(n, 2) == NM["queue_detach"])
     trav = []
     for rb in removes:
         for b, t, fr in R.iter_calls():
@@ -198,10 +205,10 @@ def check(ctx):
         else:
             ctx.fail("C12.c", "replay:unclassified-callee:%s" % lib.tail(n, 2), R.loc(b), "%s on the detached queue is not classified" % sn)
     # the postponing site uses the queue's push
-    pushes = lib.call_blocks(R, lambda n: lib.tail(n, 2) == qname + "::push")
+    pushes = lib.call_blocks(R, lambda n: lib.tail(n, 2) == NM["queue_push"])
     _dispatch_order(ctx)
     others = [b for b, t, fr in R.iter_calls() if fr and lib.tail(mir.fn_name(fr), 2).startswith(qname + "::")
-              and lib.tail(mir.fn_name(fr), 1) not in ("push", "pop_front", "append", "remove")]
+              and lib.tail(mir.fn_name(fr), 2) not in (NM["queue_push"], NM["queue_pop"], NM["queue_attach"], NM["queue_detach"])]
     ctx.check(len(pushes) >= 1 and not others, "C12.c", "runner:postpones-with-push-back", "%s:%d" % (R.file, R.line),
               "runner uses only push/pop_front/append/remove on the queue", "runner uses another queue operation: %s" % [R.loc(b) for b in others])
 
